@@ -72,7 +72,7 @@ PROPS = {
     "C14": mk(["u1", "u2"], T_SIGNAL + T_U2, [R1, R2, A1, A5], "blocking-effect tokens in requires; total correctness of the non-blocking entry points"),
     "C15": mk(["u1", "u2", "glue"], T_SIGNAL + T_U2, [R1, R2, R3, A1, A5], "Drop contracts of both futures: cancel under the lock, else wait for the peer, value disposed exactly once"),
     "C16": mk(["u1", "u2", "glue"], T_SIGNAL + T_U2, [R1, R2, R3, A1, A5], "poll contracts: Pending implies current waker registered, waker replaced only under the lock, re-arm only with a fresh signal, value only on evidence of delivery, sticky stream end"),
-    "C17": mk(["u2"], T_U2, [A1, A5, "mutual exclusion under the C11 memory model is NOT proved: the contracts are sequential; L-MUTEX derives exclusion over the contracts assuming atomic CAS and sequential consistency", "progress (a blocking acquisition succeeds once the holder leaves) is excluded (liveness)"],
+    "C17": mk(["u2", "u1"], T_U2 + ["T1 Mutex::lock/try_lock (lock_api wrapper over RawMutexLock) in U1: try_lock takes no blocking token"], [A1, A5, "mutual exclusion under the C11 memory model is NOT proved: the contracts are sequential; L-MUTEX derives exclusion over the contracts assuming atomic CAS and sequential consistency", "progress (a blocking acquisition succeeds once the holder leaves) is excluded (liveness)"],
               "contracts on try_lock / lock / lock_no_inline / unlock / spin_cond on the real text + interleaving lemma over those contracts (reduced claim)"),
     "C18": mk(["u1"], T_SIGNAL + T_TIME, [R1, R2, R3, A1, A2, A3, A4, A5], "each entry point equals a deterministic reference function; panic- and overflow-freedom"),
     "C19": mk(["u1"], T_SIGNAL, [R1, R2, R3, A1, A2, A5], "full functional post-condition of drain_into including both loops"),
